@@ -188,7 +188,10 @@ Fixpoint simple_prefix (ss : list stmt) : nat :=
 
 Definition is_endret (s : stmt) : option bool :=
   match s with
-  | SCmd c => if text_eqb (cname c) (t "end") then Some true else if text_eqb (cname c) (t "return") then Some false else None
+  | SCmd c => match cargs c with
+              | [] => if text_eqb (cname c) (t "end") then Some true else if text_eqb (cname c) (t "return") then Some false else None
+              | _ :: _ => None   (* repair D22: written with arguments it is an ordinary command line; the terminator has none *)
+              end
   | _ => None
   end.
 
